@@ -620,7 +620,55 @@ func c07RuleAllow(c *eng.Ctx, ruleAllow, match *ssa.Function, helper *globHelper
 		}
 		return res
 	}
-	paths, ok := eng.EnumPaths(ruleAllow, 1, 64)
+	// membership loops written inline in Rule.Allow: the loop over r.Action /
+	// r.Secret is an atom, true when left through its predicate's true edge,
+	// false when left because the list is exhausted
+	type inlineLoop struct {
+		atom   string
+		header *ssa.If
+		pred   *ssa.If
+	}
+	var inl []inlineLoop
+	for _, l := range eng.RangeLoops(ruleAllow) {
+		fld := recvField(l.Slice)
+		if fld != "Action" && fld != "Secret" {
+			continue
+		}
+		hdr, _ := l.Header.Instrs[len(l.Header.Instrs)-1].(*ssa.If)
+		var pred *ssa.If
+		eng.Instrs(ruleAllow, func(in ssa.Instruction) {
+			ifi, ok := in.(*ssa.If)
+			if !ok || !l.InLoop(ifi.Block()) || ifi == hdr {
+				return
+			}
+			cd := eng.CondOf(ifi.Cond, true)
+			switch fld {
+			case "Action":
+				if op, x, y, isCmp := cd.Cmp(); isCmp && (op == token.EQL || op == token.NEQ) && ((l.ElemOf(x) && eng.Origin(y) == actionP) || (l.ElemOf(y) && eng.Origin(x) == actionP)) {
+					pred = ifi
+				}
+			case "Secret":
+				if pc, _, _, isCall := cd.BoolCall(); isCall && eng.Callee(&pc.Call) == match && l.ElemOf(pc.Call.Args[0]) && eng.Origin(pc.Call.Args[1]) == secretP {
+					pred = ifi
+				}
+			}
+		})
+		if hdr == nil || pred == nil {
+			c.Undecided("R-C07-4", ruleAllow, l.Header.Instrs[0].Pos(), "loop over r."+fld+" in Rule.Allow", "no element == action / element.Match(secret) test found in it")
+			return
+		}
+		a := "A"
+		if fld == "Secret" {
+			a = "S"
+		}
+		c.Ok("R-C07-4", ruleAllow, pred.Pos(), "inline membership loop over r."+fld, "whole list, predicate "+eng.CondOf(pred.Cond, true).String())
+		inl = append(inl, inlineLoop{a, hdr, pred})
+	}
+	visits := 1
+	if len(inl) > 0 {
+		visits = 2
+	}
+	paths, ok := eng.EnumPaths(ruleAllow, visits, 4096)
 	if !ok || len(paths) == 0 {
 		c.Undecided("R-C07-4", ruleAllow, ruleAllow.Pos(), "shape of Rule.Allow", "too many paths")
 		return
@@ -638,11 +686,74 @@ func c07RuleAllow(c *eng.Ctx, ruleAllow, match *ssa.Function, helper *globHelper
 		}
 		rw := row{lits: map[string]bool{}}
 		contradictory := false
+		// how each inline loop is left on this path
+		matched := map[string]bool{}
 		for _, cd := range pa.Conds() {
+			for _, il := range inl {
+				if cd.If == il.pred {
+					// the predicate's positive edge
+					pos := eng.CondOf(il.pred.Cond, true)
+					isPos := cd.Op == pos.Op && cd.Truth == pos.Truth
+					if pos.Op == token.NEQ {
+						isPos = !isPos // `if elem != action { continue }`
+					}
+					if isPos {
+						matched[il.atom] = true
+					}
+				}
+			}
+		}
+		skip := false
+		for _, cd := range pa.Conds() {
+			handled := false
+			for _, il := range inl {
+				if cd.If == il.pred {
+					handled = true
+					if matched[il.atom] {
+						rw.lits[il.atom] = true
+					}
+				}
+				if cd.If == il.header {
+					handled = true
+					// leaving by the header's exit edge without a match: exhausted
+					exit := il.header.Block().Succs[1]
+					taken := false
+					for i, b := range pa.Blocks {
+						if b == il.header.Block() && i+1 < len(pa.Blocks) && pa.Blocks[i+1] == exit {
+							taken = true
+						}
+					}
+					if taken && !matched[il.atom] {
+						if old, has := rw.lits[il.atom]; has && old {
+							contradictory = true
+						}
+						rw.lits[il.atom] = false
+					}
+				}
+			}
+			if handled {
+				continue
+			}
 			v, truth, isB := cd.Bool()
 			a := ""
 			if isB {
 				a = atom(v)
+			}
+			if a == "" && isB {
+				// a flag set in a loop (`found = true; break`): its value on
+				// this path is known; a branch against it is infeasible
+				prefix := eng.Path{Blocks: pa.Blocks}
+				for i, b := range pa.Blocks {
+					if b == cd.If.Block() {
+						prefix = eng.Path{Blocks: pa.Blocks[:i+1]}
+					}
+				}
+				if k, isC := prefix.Resolve(v).(*ssa.Const); isC && k.Value != nil && (k.Value.String() == "true" || k.Value.String() == "false") {
+					if (k.Value.String() == "true") != truth {
+						skip = true
+					}
+					continue
+				}
 			}
 			if a == "" {
 				if !failed {
@@ -655,7 +766,7 @@ func c07RuleAllow(c *eng.Ctx, ruleAllow, match *ssa.Function, helper *globHelper
 			}
 			rw.lits[a] = truth
 		}
-		if contradictory {
+		if contradictory || skip {
 			continue
 		}
 		rv := pa.Resolve(eng.RetVals(ret)[0])
